@@ -10,6 +10,8 @@ stream — no size bounds.
 -/
 import Rustic.Lemmas.ArchiveParent
 import Rustic.Lemmas.ArchiveComplete
+import Rustic.Lemmas.TreeIter
+import Rustic.Lemmas.SnapshotArchive
 namespace Rustic.Props.C11
 open Rustic.Tree Rustic.Parent Rustic.Archive
 
@@ -168,6 +170,50 @@ theorem new_snapshot_references_only_stored_blobs {γ} (H : List Node → Id) (c
       (∀ c ∈ n.content.getD [], hasData c = true ∨ c ∈ a.dataAdds) :=
   archive_complete H chunk len load hasData hasTree o roots items hsrc a ha
 
+/-- (7) **`TreeIterator` over a name-sorted source yields `queriesOK` items** — the premise of (1') and (2) is a
+theorem about the source, not something to be checked per run.  `src` is any source forest (`Snapshot.STree`: files,
+symlinks, special files, directories of any depth and width) walked depth-first (`entriesL`: a directory's entry carries
+its own path, every other entry its parent's, as `Archiver::archive` prepares them); `WalkableL`: directories are
+directory nodes and no two adjacent sibling directories share a name; `SortedL none`: in every directory the names never
+decrease in walk order (`Ord for OsStr`, what `LocalSource`'s sorted walk and the in-memory sources give).  Then the item
+stream `TreeIterator` makes of it (`treeItems`: every `NewTree` / `EndTree` / `Other`) queries names in non-decreasing
+order at every directory level. -/
+theorem tree_iterator_sorted_source_queriesOK (src : List Snapshot.STree) (hw : Snapshot.WalkableL src)
+    (hs : Snapshot.SortedL none src) : queriesOK [none] (treeItems (Snapshot.entriesL [] src)) :=
+  Snapshot.sorted_source_queriesOK src hw hs
+
+/-- (7') … and the iterator neither invents nor drops anything: its items are exactly the bracketed walk of the forest. -/
+theorem tree_iterator_items (src : List Snapshot.STree) (hw : Snapshot.WalkableL src) :
+    treeItems (Snapshot.entriesL [] src) = Snapshot.itemsL src :=
+  Snapshot.tree_iterator_items src hw
+
+/-- (2') **Parent-based backup = full backup, stated on the source.**  (2) with the item stream produced by the real
+`TreeIterator` from a name-sorted source forest: no premise about the items is left. -/
+theorem parent_eq_full_sorted_source (H : List Node → Id) (chunk : RoundTrip.Bytes → List Id) (len : RoundTrip.Bytes → Nat)
+    (load : Id → Option (List Node)) (hasData hasTree hasTree' : Id → Bool) (o : Opts) (roots : List Id)
+    (src : List Snapshot.STree) (hw : Snapshot.WalkableL src) (hsorted : Snapshot.SortedL none src)
+    (hs : SortedStore load)
+    (hf : Faithful o load hasData chunk (SState.init load roots) (treeItems (Snapshot.entriesL [] src)))
+    (a : ArchOut)
+    (ha : archive H chunk len load hasData hasTree o roots (treeItems (Snapshot.entriesL [] src)) = some a) :
+    ∃ b, archive H chunk len load hasData hasTree' o [] (treeItems (Snapshot.entriesL [] src)) = some b ∧
+      b.root = a.root :=
+  parent_eq_full H chunk len load hasData hasTree hasTree' o roots _ hs
+    (tree_iterator_sorted_source_queriesOK src hw hsorted) hf a ha
+
+/-- (6+) … and for a source forest the premise `SrcItems` of (6'') is a theorem too: the new snapshot of ANY well-formed
+source (`WFL`), under any parents and any index, references only stored blobs. -/
+theorem new_snapshot_of_source_references_only_stored_blobs (H : List Node → Id) (chunk : RoundTrip.Bytes → List Id)
+    (len : RoundTrip.Bytes → Nat) (load : Id → Option (List Node)) (hasData hasTree : Id → Bool) (o : Opts)
+    (roots : List Id) (src : List Snapshot.STree) (hwf : Snapshot.WFL src) (hw : Snapshot.WalkableL src) (a : ArchOut)
+    (ha : archive H chunk len load hasData hasTree o roots (treeItems (Snapshot.entriesL [] src)) = some a) :
+    (hasTree a.root = true ∨ a.root ∈ a.treeAdds.map (·.1)) ∧
+    ∀ t ∈ a.treeAdds, ∀ n ∈ t.2,
+      (∀ st, n.subtree = some st → hasTree st = true ∨ st ∈ a.treeAdds.map (·.1)) ∧
+      (∀ c ∈ n.content.getD [], hasData c = true ∨ c ∈ a.dataAdds) :=
+  new_snapshot_references_only_stored_blobs H chunk len load hasData hasTree o roots _
+    (by rw [Snapshot.tree_iterator_items src hw]; exact Snapshot.srcItems_list src hwf) a ha
+
 /-! ### Non-vacuity: a concrete parent forest, source walk and index satisfying every hypothesis, with a
 reused file, a re-read file (blob 7 missing from the index), a changed file and a sub-directory. -/
 
@@ -221,6 +267,18 @@ example : (archive wH id List.length wLoad wHas (fun _ => false) ⟨false, false
 tree keeps the old content `[1,2]`, the full one has `[8]`. -/
 example : (archive wH id List.length wLoad wHas (fun _ => false) ⟨false, false⟩ [100] [.other (src fA) [8]]).map (·.root) ≠
     (archive wH id List.length wLoad wHas (fun _ => false) ⟨false, false⟩ [] [.other (src fA) [8]]).map (·.root) := by decide
+
+/-- (7) on a concrete forest: two files, a directory with a file and an empty directory, a trailing symlink -/
+private def wSrc : List Snapshot.STree :=
+  [.leaf (src fA) [1, 2], .leaf (src fB) [7],
+   .dir (src dD) [.leaf (src fC) [3], .dir { src dD with name := [101] } []],
+   .leaf { name := [122], kind := .symlink [0xff], md := { size := 0, mtime := none, ctime := none, inode := 9 } } []]
+
+example : Snapshot.WalkableL wSrc ∧ Snapshot.SortedL none wSrc := by
+  simp [wSrc, Snapshot.WalkableL, Snapshot.STree.Walkable, Snapshot.SortedL, Snapshot.STree.SortedNames, okAfter, nameLe,
+    cmpName, Snapshot.STree.node, Node.isDir, src, fA, fB, fC, dD]
+
+example : (treeItems (Snapshot.entriesL [] wSrc)).length = 8 := by decide
 
 end Witness
 
